@@ -1,0 +1,6 @@
+//go:build !verif
+
+package main
+
+// verifProbe is a verification hook (build tag "verif"); without the tag it is a no-op.
+func verifProbe(phase string) {}
